@@ -1,8 +1,12 @@
 """C19 — wire codec and framing round trips (DESIGN.md section 6, C19; pattern P1 + framing pipeline).
 
-TLC (spec/Codec.tla) checks the design of the seven decision tables of spec/CodecDefs.tla (messages, wire
+TLC (spec/Codec.tla) checks the design of the decision tables of spec/CodecDefs.tla (messages, wire
 shapes, content values, required members, decoder case sensitivity, frames through the read loops of the real
-transports, arity of list/map members of the result types) and exports their complete case products; the Go harness (harness/mcp/c19_codec_test.go) concretises every case
+transports, arity of list/map members of the result types, lifetime of a decoded message when the buffer it came
+from is reused, bursts through a buffer-reusing connection into a real session) and exports their complete case
+products; TLC (spec/CodecWrite.tla) checks the state machine of concurrent writers over a non-atomic io.Writer
+(mutual exclusion => the stream is a sequence of whole frames; without it the frames tear) and exports every
+(case, plan of offers); the Go harness (harness/mcp/c19_codec_test.go) concretises every case
 with seeded values, runs the real encoders / decoders / framers / sessions and records which members
 survived; the TLA+ monitor spec/CodecMon.tla judges the recorded comparisons (verdict) and compares
 them with the code-shaped expectation (drift).  Level: exploration (see DESIGN.md section 7).
@@ -12,7 +16,10 @@ import vlib
 
 PID = "C19"
 TABLES = {"msg": "cases_msg.ndjson", "wire": "cases_wire.ndjson", "val": "cases_val.ndjson",
-          "req": "cases_req.ndjson", "vc": "cases_vc.ndjson", "fr": "cases_fr.ndjson", "ar": "cases_ar.ndjson"}
+          "req": "cases_req.ndjson", "vc": "cases_vc.ndjson", "fr": "cases_fr.ndjson", "ar": "cases_ar.ndjson",
+          "lt": "cases_lt.ndjson", "lb": "cases_lb.ndjson", "ww": "cases_ww.ndjson"}
+LT_FIELD = {"IdType": "id.type", "IdValue": "id.value", "Method": "method", "Params": "params", "Result": "result",
+            "ErrCode": "error.code", "ErrMsg": "error.message", "ErrData": "error.data"}
 FIELD = {"Method": "method", "Params": "params", "Result": "result", "ErrCode": "error.code",
          "ErrMsg": "error.message", "ErrData": "error.data"}
 MISSING = {"text.text": ("TextContent", "text"), "image.data": ("ImageContent", "data"),
@@ -86,7 +93,50 @@ def sigs_of(e, inv):
         if inv == "ArSameElems":
             return ["roundtrip=%s:elements-differ" % ctx]
         return ["roundtrip=%s:other-members-lost|fill=%s|rt=%s" % (ctx, c["fill"], c["rt"])]
+    if k == "lt":  # Lifetime.<Member> | Lifetime.Reencode[.<Member>] | Lifetime.Class | Lifetime.Later
+        ctx = "kind=%s|path=%s|reuse=%s" % (c["kind"], c["path"], c["reuse"])
+        name = inv.split(".", 1)[1]
+        if name == "Class":
+            return ["lifetime:decoded-as=%s|%s" % (o["cls"], ctx)]
+        if name == "Later":
+            return ["lifetime:next-message-lost|%s" % ctx]
+        if name == "Reencode":
+            return ["lifetime:reencode-fails|%s" % ctx]
+        if name.startswith("Reencode."):
+            return ["lifetime:field=%s:lost-on-reencode|%s" % (LT_FIELD[name.split(".", 1)[1]], ctx)]
+        return ["lifetime:field=%s:lost|%s" % (LT_FIELD[name], ctx)]
+    if k == "lb":
+        what = "not-answered" if inv == "BurstAnswered" else "call-not-executed-with-its-arguments"
+        return ["lifetime:burst:%s|size=%s|hold=%s" % (what, c["size"], c["hold"])]
+    if k == "ww":
+        return ["framing=ndjson:concurrent-writes:frames-torn|writers=%d|mix=%s" % (c["k"], c["mix"])]
     return ["?:" + inv]
+
+
+def ww_cases(tier):
+    """The state machine of concurrent writers: design check (guarded), witness (unguarded), and the exported plans."""
+    cfg = "CodecWrite_quick.cfg" if tier == "quick" else "CodecWrite_thorough.cfg"
+    res = vlib.run_tlc("CodecWrite", cfg, workers=2, timeout=600, heap_gb=4)
+    vlib.tlc_must_pass(res, cfg)
+    if not res.ok:
+        raise vlib.MachineryError("CodecWrite (guarded) design check failed: " + str(res.violation or res.stdout[-2000:]))
+    wit = vlib.run_tlc("CodecWrite", "CodecWrite_unguarded.cfg", workers=1, timeout=300, heap_gb=2)
+    if wit.violation != "Contiguous":
+        raise vlib.MachineryError("CodecWrite witness: without mutual exclusion Contiguous must be violated, got %s %s" % (wit.violation, wit.error))
+    by = {}
+    for p in res.printed:
+        if isinstance(p, dict) and p.get("ww"):
+            key = json.dumps([p["k"], p["chunks"], p["mix"], p["cut"], p["plan"]])
+            by.setdefault(key, (p, []))
+            if p["order"] not in by[key][1]:
+                by[key][1].append(p["order"])
+    cases = []
+    for key in sorted(by):
+        p, orders = by[key]
+        cases.append({"k": p["k"], "chunks": p["chunks"], "mix": p["mix"], "cut": p["cut"], "plan": p["plan"], "orders": sorted(orders)})
+    if len(cases) < 300:
+        raise vlib.MachineryError("CodecWrite exported only %d plans" % len(cases))
+    return res, wit, cases
 
 
 def nontrivial(e):
@@ -103,6 +153,8 @@ def nontrivial(e):
         return c["shape"] not in ("obj-msg", "obj-notif", "obj-resp") or c["pad"] != "none"
     if k == "ar":
         return c["arity"] != "one"
+    if k == "ww":  # some offer is made to a writer while another one is inside the underlying writer
+        return any(w != c["plan"][0] for w in c["plan"][:1 + c["chunks"][c["plan"][0] - 1]])
     return True
 
 
@@ -115,24 +167,35 @@ def run(tier, seed, replay):
         "frames: a panic in a goroutine of the SDK (reader goroutines of jsonrpc2 / ioConn / the streamable client) ends the test binary; "
         "the crash is attributed to the frame case in flight (outcome 'crash', judged by the monitor); those paths run last so that every other observation is on disk",
         "arity: nil and empty must be kept apart only for members whose type spells nil by omission and empty by an empty container (CodecDefs!ArDistinguished); elsewhere nil and empty count as equal",
+        "concurrent writers: the harness' scheduler steps the writer goroutines along the plan without sleeping; between steps it waits until every writer that has not returned "
+        "is parked, which it reads from the runtime's goroutine states (runtime.Stack); the underlying io.Writer identifies a writer by its goroutine",
+        "lifetime: the owner of a read buffer may reuse it as soon as the decode call has returned (bufio.Scanner semantics); bursts: the tool handlers are held by a gate until the reader has consumed the whole burst",
     ]
     out = vlib.outdir(PID)
     for f in os.listdir(out):  # replay files of earlier runs
         if f.startswith("violation-"):
             os.remove(os.path.join(out, f))
     # 1. design check + case export by TLC
+    from concurrent.futures import ThreadPoolExecutor
     wd = vlib.scratch("tlc-")
-    res = vlib.run_tlc("Codec", "Codec.cfg", workdir=wd, workers=1, timeout=600, heap_gb=4)
+    with ThreadPoolExecutor(max_workers=2) as ex:  # the two design checks side by side
+        fww = ex.submit(ww_cases, tier)
+        res = vlib.run_tlc("Codec", "Codec.cfg", workdir=wd, workers=1, timeout=600, heap_gb=4)
+        wres, wwit, wcases = fww.result()
+    vlib.write_ndjson(os.path.join(wd, TABLES["ww"]), wcases)
     vlib.tlc_must_pass(res, "Codec")
     if not res.ok:
         raise vlib.MachineryError("Codec design check failed: " + (res.violation or res.stdout[-2000:]))
     counts = [p for p in res.printed if isinstance(p, dict) and "msg" in p][0]
-    v.add_tlc("Codec(design: Holds(c, Expected(c)) <=> ~Lead(c) on 7 tables; Classify total; witnesses)", res)
+    v.add_tlc("Codec(design: Holds(c, Expected(c)) <=> ~Lead(c) on 9 tables; Classify total; witnesses)", res)
+    v.add_tlc("CodecWrite(guarded: TypeOK, Contiguous, Finishes on every plan and hand-over; plans exported)", wres)
+    v.add_tlc("CodecWrite(unguarded witness: Contiguous violated)", wwit)
+    counts["ww"] = len(wcases)
     ncases = sum(counts[k] for k in TABLES)
     v.cov["states"] = ncases
     v.cov["transitions"] = ncases
     v.cov["case_counts"] = {k: counts[k] for k in TABLES}
-    v.cov["design_leads"] = {k: counts.get(k + "Leads", 0) for k in ("msg", "val", "req", "vc", "fr", "ar")}
+    v.cov["design_leads"] = {k: counts.get(k + "Leads", 0) for k in ("msg", "val", "req", "vc", "fr", "ar", "lt")}
     v.cov["lead_id_classes"] = counts["leadIds"]
     indir = os.path.join(out, "in")
     shutil.rmtree(indir, ignore_errors=True)
@@ -203,7 +266,8 @@ def run(tier, seed, replay):
         aborted = open(obs + ".aborted").read().strip()
         v.assumptions.append("run cut short: " + aborted)
     if not replay and not aborted and not crashed:
-        want = reps * (counts["msg"] + counts["wire"] + counts["val"] + counts["fr"]) + counts["req"] + 4 * reps * (counts["vc"] + counts["ar"])
+        want = (reps * (counts["msg"] + counts["wire"] + counts["val"] + counts["fr"] + counts["lt"] + counts["lb"]) + counts["req"]
+                + 4 * reps * (counts["vc"] + counts["ar"]) + counts["ww"])
         got = sum(1 for r in rows if r["k"] != "fuzz")
         if got != want:
             raise vlib.MachineryError("harness produced %d of %d case observations" % (got, want))
@@ -215,7 +279,6 @@ def run(tier, seed, replay):
             first[key] = i
             uniq.append((i, r))
     # (three TLC instances side by side, each on a third of the log: the judgement is per line)
-    from concurrent.futures import ThreadPoolExecutor
     nchunks = 3 if len(uniq) > 30000 else 1
     size = (len(uniq) + nchunks - 1) // nchunks
     chunks = []
@@ -235,9 +298,11 @@ def run(tier, seed, replay):
     v.cov["arbitrary_inputs"] = nfz
     v.cov["distinct_outcomes_judged"] = len(uniq)
     v.cov["distinct_nontrivial"] = len({json.dumps([r["k"], r.get("c")], sort_keys=True) for r in rows if r["k"] != "fuzz" and nontrivial(r)})
-    v.cov["rule"] = ("complete products of the seven tables enumerated by TLC (Codec!MsgCaseSet, WireCaseSet, ValCaseSet, ReqCaseSet, VcCaseSet, FrCaseSet, ArCaseSet), "
-                     "every case run %d time(s) with fresh seeded values; non-trivial = framing other than raw, non-plain strings, edge/lossy/string ids, "
-                     "invalid or miscased wire shapes, zero-valued / nested / nil / empty values, frames other than a plain single message, nil / empty members" % reps)
+    v.cov["rule"] = ("complete products of the tables enumerated by TLC (Codec!MsgCaseSet, WireCaseSet, ValCaseSet, ReqCaseSet, VcCaseSet, FrCaseSet, ArCaseSet, "
+                     "LtCaseSet, LbCaseSet) and every (case, plan) of the terminal states of CodecWrite (writers x pieces per frame x interleaving of calls and pieces), "
+                     "every case run %d time(s) with fresh seeded values (plans once); non-trivial = framing other than raw, non-plain strings, edge/lossy/string ids, "
+                     "invalid or miscased wire shapes, zero-valued / nested / nil / empty values, frames other than a plain single message, nil / empty members, "
+                     "every lifetime and burst case, plans that offer a step to a second writer while the first is inside the underlying writer" % reps)
     v.cov["exhaustive"] = not replay and not aborted and not crashed
     by_kind = {}
     for r in rows:
